@@ -144,25 +144,41 @@ fn main() {
     }
 }
 
-/// The harness owns the process's source of randomness: std seeds every HashMap (per thread) through
-/// getrandom(2), and the number and order of interner operations of a compilation depends on HashMap
-/// iteration order. When VERIF_DET_RANDOM is set (C19: schedules are identified by scheduling-point numbers
-/// and must replay exactly) this definition, which the linker prefers to libc's, returns a fixed byte
-/// sequence; otherwise it forwards to the system call (C15 explores real seeds).
+/// The harness owns the process's source of randomness: std seeds every HashMap (once per thread) through
+/// getrandom(2), and the number and order of interner operations of a compilation - and anything a compiler derives
+/// from map iteration order - depend on those seeds. When VERIF_DET_RANDOM=<k> is set (./check sets it for C19, whose
+/// schedules are identified by scheduling-point numbers and must replay exactly, and for C15, which explores a stated
+/// set of hash seeds) this definition, which the linker prefers to libc's, returns a byte sequence that is a function
+/// of the current seed index only; `set_hash_seed` changes the index for threads started afterwards. Without the
+/// variable it forwards to the system call.
+static HASH_SEED: std::sync::atomic::AtomicU64 = std::sync::atomic::AtomicU64::new(u64::MAX);
+pub fn set_hash_seed(k: u64) {
+    HASH_SEED.store(k, std::sync::atomic::Ordering::SeqCst);
+}
+pub fn hash_seed_controlled() -> bool {
+    std::env::var("VERIF_DET_RANDOM").is_ok()
+}
 #[unsafe(no_mangle)]
 pub unsafe extern "C" fn getrandom(buf: *mut libc::c_void, len: libc::size_t, flags: libc::c_uint) -> libc::ssize_t {
-    static DET: std::sync::atomic::AtomicU8 = std::sync::atomic::AtomicU8::new(0);
-    let mut d = DET.load(std::sync::atomic::Ordering::Relaxed);
-    if d == 0 {
-        // no allocation here: getenv on a C string
+    use std::sync::atomic::Ordering::SeqCst;
+    let mut k = HASH_SEED.load(SeqCst);
+    if k == u64::MAX {
+        // first call: read the environment (no allocation here: getenv on a C string)
         let p = unsafe { libc::getenv(c"VERIF_DET_RANDOM".as_ptr()) };
-        d = if p.is_null() { 1 } else { 2 };
-        DET.store(d, std::sync::atomic::Ordering::Relaxed);
+        k = if p.is_null() { u64::MAX - 1 } else { (unsafe { libc::atoll(p) }) as u64 % (1 << 32) };
+        HASH_SEED.store(k, SeqCst);
     }
-    if d == 2 {
+    if k != u64::MAX - 1 {
         let b = buf as *mut u8;
+        let mut x = k.wrapping_mul(0x9E37_79B9_7F4A_7C15).wrapping_add(0x1234_5678_9ABC_DEF1);
         for i in 0..len {
-            unsafe { *b.add(i) = (i as u8).wrapping_mul(37).wrapping_add(11) };
+            // splitmix64 step per byte
+            x = x.wrapping_add(0x9E37_79B9_7F4A_7C15);
+            let mut z = x;
+            z = (z ^ (z >> 30)).wrapping_mul(0xBF58_476D_1CE4_E5B9);
+            z = (z ^ (z >> 27)).wrapping_mul(0x94D0_49BB_1331_11EB);
+            z ^= z >> 31;
+            unsafe { *b.add(i) = z as u8 };
         }
         return len as libc::ssize_t;
     }
